@@ -236,3 +236,20 @@ package transport
 //@   after call Close#2 set nClosed = nClosed + 1
 //@   at return assert #session-and-client-are-both-closed result == nil && old(t.session) != nil && old(t.client) != nil ==> nClosed == old(nClosed) + 2 && t.session == nil && t.client == nil
 //@   at return assert #a-client-without-session-is-closed-too result == nil && old(t.session) == nil && old(t.client) != nil ==> nClosed == old(nClosed) + 1 && t.client == nil
+
+// ---- C14: which way a transport is opened ----------------------------------------------------------------------------------
+//@ func (*System).Open [C14]
+//@   ensures #a-passphrase-protected-key-is-refused-by-the-system-transport t.SSHArgs.PrivateKeyPath != "" && t.SSHArgs.PrivateKeyPassPhrase != "" ==> result == util.ErrBadOption
+//@   at call openNetconf#1 assert #the-netconf-subsystem-only-for-netconf-connections t.SSHArgs.NetconfConnection && arg0 == a
+//@   at call open#1 assert #a-shell-otherwise !t.SSHArgs.NetconfConnection && arg0 == a
+//@   at call ReadFile#1 assert #the-configured-key-file-is-the-one-checked arg0 == t.SSHArgs.PrivateKeyPath
+//@ func (*Standard).Open [C14]
+//@   at call openNetconf#1 assert #the-netconf-subsystem-only-for-netconf-connections t.SSHArgs.NetconfConnection && arg0 == a
+//@   at call open#1 assert #a-shell-otherwise !t.SSHArgs.NetconfConnection && arg0 == a
+//@ func (*Standard).openNetconf [C14]
+//@   at call! openBase#1 assert #the-session-is-set-up-by-the-common-part-with-its-host-key-checking arg0 == a
+//@   at call RequestSubsystem#1 assert #the-netconf-subsystem-is-requested-only-after-a-successful-handshake err == nil && arg0 == "netconf"
+//@ func (*Standard).open [C14 C19]
+//@   at call! openBase#1 assert #the-session-is-set-up-by-the-common-part-with-its-host-key-checking arg0 == a
+//@   at call RequestPty#1 assert #the-pty-gets-the-configured-size-after-a-successful-handshake err == nil && arg1 == a.TermHeight && arg2 == a.TermWidth
+//@   at call Shell#1 assert #the-shell-starts-only-after-the-pty-was-granted err == nil
